@@ -29,12 +29,17 @@ TRUSTED = [
     "packaging.specifiers when present, otherwise Go's own table restricted to valid versions)",
 ]
 ASSUMPTIONS = [
-    "model validated against the implementation by execution on generated inputs (parser tree, value, guarded edge), "
+    "model validated against the implementation by execution on generated inputs (marker accept/value/grid values, guarded edges), "
     "not verified against Go source",
     "C16_marker_partial assumes the C03 interface: on two valid versions the Go constraint match equals packaging's "
     "Specifier.contains (hypothesis sat_agree); checked per case by the direct oracle",
-    "the guarded-edge clause is tied by the marker_edge correspondence (real resolver over a LocalClient), the "
-    "resolver itself is C08's model",
+    "third clause: C16_guard proves that the resolver model's only marker-dependent predicate (keep of getDependencies, "
+    "Resolve/Pypi.v) instantiated with the marker model agrees with packaging on the domain; which extras reach it and that "
+    "kept requirements become edges is C08; on the Go code the clause is decided by the marker_edge / marker_multi "
+    "correspondence and oracle (real resolver over a LocalClient; shapes: one requirer, marker on the root's own "
+    "requirement, two requirers with different extras, guarded requirement enabling an extra, extras asked only by a rejected candidate)",
+    "the marker correspondence compares observables only (accept/reject, value for the requested extras, values over a grid "
+    "of extras sets); Go's parse tree and its String() (a debug text that embeds semver's internal set syntax) are not compared",
 ]
 
 MANIFEST = dict(
@@ -115,51 +120,6 @@ def canon_py(b):
     return bytes(out)
 
 
-def classify(tree, extras, env, valid, spec_tab):
-    """Why a marker lies outside the proved domain: the id of the known divergence class of the first
-    atom that is outside (python mirror of Spec/Pep508Domain.dom_atom; Coq's in_domain decides, this names)."""
-    lits = []
-    for a in G.tree_atoms(tree):
-        var, op, text, lit_right = G.atom_parts(a)
-        name = G.VARS[var]
-        opt = G.OPS[op]
-        if var == G.EXTRA:
-            if opt != "==":
-                return "F-C16-2"
-            if text == b"" or canon_py(text) != text:
-                return "F-C16-3"
-            lits.append(text)
-            continue
-        ev = env[name]
-        lhs, rhs = (ev, text) if lit_right else (text, ev)
-        both = valid.get(lhs, False) and valid.get(rhs, False)
-        sp = spec_tab.get((opt, rhs, lhs), 2) in (0, 1)
-        if name in G.VERSION_TYPED:
-            if opt in ("in", "not in"):
-                if both:
-                    return "F-C16-1"
-            elif opt == "===":
-                return "F-C16-5"
-            elif opt in ("==", "!=", "~="):
-                if not ((both and sp) or (not both and not sp)):
-                    return "F-C16-6"
-            elif not (both and sp):
-                return "F-C16-4" if not both else "F-C16-6"
-        else:
-            if opt in ("==", "!=", "in", "not in", "~="):
-                if both:
-                    return "F-C16-6"
-            elif opt == "===":
-                return "F-C16-5"
-            else:
-                return "F-C16-4"
-    if any(canon_py(e) != e for e in extras):
-        return "F-C16-3"
-    if len(set(lits)) > 1:
-        return "F-C16-7"
-    return None
-
-
 # ----------------------------------------------------------------------------- helpers
 
 def known_hit(ctx, fid, what, input, observed, required):
@@ -197,6 +157,30 @@ def norm_go_req(v):
     return name, ex, cl, envt
 
 
+def norm_marker_text(b):
+    """marker text modulo what packaging itself normalises: white space outside string literals is dropped,
+    a literal is written with double quotes unless it contains one"""
+    out = bytearray()
+    i, n = 0, len(b)
+    while i < n:
+        c = b[i]
+        if c in (34, 39):
+            j = b.find(bytes([c]), i + 1)
+            if j < 0:
+                out += b[i:]
+                break
+            body = b[i + 1:j]
+            q = b"'" if 34 in body else b'"'
+            out += q + body + q
+            i = j + 1
+        elif c in b" \t":
+            i += 1
+        else:
+            out.append(c)
+            i += 1
+    return bytes(out)
+
+
 def same_split(a, b):
     """correspondence on ParseDependency compares the projected observables of C16 (name, extras list,
     specifier clauses, marker text without outer white space), not the raw fields"""
@@ -209,7 +193,7 @@ def same_split(a, b):
     if x[0] != b"ok" or y[0] != b"ok":
         return x[0] == y[0] and x[0] != b"ok"
     nx, ny = norm_go_req(x), norm_go_req(y)
-    return nx[:3] == ny[:3] and nx[3].strip(b" \t") == ny[3].strip(b" \t")
+    return nx[:3] == ny[:3] and norm_marker_text(nx[3]) == norm_marker_text(ny[3])
 
 
 def replay_known(ctx):
@@ -351,9 +335,9 @@ def check_requirements(ctx, rng, ref):
             ctx.violation("ParseDependency rejects a valid PEP 508 requirement", sx(text), observed=line, required="ok")
             continue
         gname, gex, gcl, genv = norm_go_req(g)
-        if (gname, gex, gcl, genv) != (name, extras, clauses, mtext):
+        if (gname, gex, gcl, norm_marker_text(genv)) != (name, extras, clauses, norm_marker_text(mtext)):
             ctx.violation("ParseDependency splits a valid requirement differently from PEP 508 (normalised observables: "
-                          "name, extras list, specifier clauses, marker text)", sx(text),
+                          "name, extras list, specifier clauses, marker text modulo white space outside literals and quote style)", sx(text),
                           observed=sx([gname, gex, gcl, genv]), required=sx([name, extras, clauses, mtext]))
         if pk is not None:
             a = pk[i]
@@ -427,7 +411,8 @@ def eval_markers(ctx, ref, env, env_json, trees, extras, wts):
                         o, s8(r), s8(l), {0: "false", 1: "true", 2: "rejects the constraint", 3: "panics"}.get(got, got), bool(res))
         c03_bad.append(bad)
     full = ["(" + sx(t) + " " + sx(e) + " " + tb[1:] for t, e, tb in zip(texts, extras, tabs)]
-    impl, model = ctx.impl("marker", full), ctx.model("marker", full)
+    full5 = [f[:-1] + " " + sx(extras_grid(t, e)) + ")" for f, t, e in zip(full, trees, extras)]
+    impl, model = ctx.impl("marker", full5), ctx.model("marker", full5)
     eimpl, emodel = ctx.impl("marker_edge", full), ctx.model("marker_edge", full)
     spec = [parse_sx(x) for x in ctx.model("spec_eval", [
         "(" + sx(t) + " " + sx(e) + " " + sx(st) + " " + sx(tv[0]) + ")" for t, e, st, tv in zip(trees, extras, spec_tabs, tabv)])]
@@ -438,9 +423,34 @@ def eval_markers(ctx, ref, env, env_json, trees, extras, wts):
     for i in range(len(trees)):
         out.append(dict(tree=trees[i], extras=extras[i], text=texts[i], wf=bool(printed[i][1]), case=full[i],
                         impl=impl[i], model=model[i], eimpl=eimpl[i], emodel=emodel[i], spec=spec[i][0], dom=bool(spec[i][1]),
+                        cls=spec[i][2],
                         pk=pk[i], c03_bad=c03_bad[i], valid=valids[i], tabv=tabv[i],
                         spec_tab={(o, r, l): res for (o, r, l), res in zip(queries[i], spec_res[i])}))
     return out
+
+
+def extras_grid(tree, extras):
+    """extras sets over which the value of a parsed marker is observed besides the requested one"""
+    lits = []
+    for a in G.tree_atoms(tree):
+        var, op, text, lit_right = G.atom_parts(a)
+        if var == G.EXTRA and text not in lits:
+            lits.append(text)
+    lits = lits[:3]
+    grid = [[]] + [[l] for l in lits] + ([lits] if len(lits) > 1 else []) + [[b"test"], [b"foo-bar", b"dev"]]
+    return grid
+
+
+def marker_obs(line):
+    """the compared part of a `marker` result: accepted?, value, values over the grid (the tree that follows is a diagnostic)"""
+    v = parse_sx(line)
+    if isinstance(v, list) and v and v[0] == b"ok":
+        return ("ok", v[1], tuple(v[2]))
+    return (v[0].decode() if isinstance(v, list) else str(v),)
+
+
+def same_marker(a, b):
+    return a == b or marker_obs(a) == marker_obs(b)
 
 
 def judge_marker(c, env):
@@ -449,8 +459,9 @@ def judge_marker(c, env):
     if not c["wf"]:
         return out
     inp = sx([c["text"], c["extras"]])
-    if '"oom"' not in c["model"] and c["impl"] != c["model"]:
-        out.append(("divergence:marker", "model and Go disagree on the parsed marker or its value", None, c["impl"], c["model"]))
+    if '"oom"' not in c["model"] and not same_marker(c["impl"], c["model"]):
+        out.append(("divergence:marker", "model and Go disagree on a marker (accept/reject, value for the requested extras, "
+                    "values over the grid of extras sets; the trees are shown for diagnosis)", None, c["impl"], c["model"]))
     if '"oom"' not in c["emodel"] and c["eimpl"] != c["emodel"]:
         out.append(("divergence:marker_edge", "model and Go disagree on the guarded edge", None, c["eimpl"], c["emodel"]))
     go, ed, sp = go_outcome(c["impl"]), edge_outcome(c["eimpl"]), spec_outcome(c["spec"])
@@ -466,7 +477,8 @@ def judge_marker(c, env):
         if pko != sp:
             out.append(("divergence:spec_vs_packaging:marker", "the Gallina spec and packaging disagree", None, json.dumps(a), sx(c["spec"])))
     if go != sp:
-        cls = ("F-C16-8" if c["c03_bad"] else None) if c["dom"] else classify(c["tree"], c["extras"], env, c["valid"], c["spec_tab"])
+        # the class of an outside-domain case is Coq's domain_class (extracted with the spec; C16_domain_class)
+        cls = ("F-C16-8" if c["c03_bad"] else None) if c["dom"] else ("F-C16-%d" % c["cls"] if c["cls"] else None)
         what = ("dependency guarded by the marker is followed (%s) but packaging %s" % (
             "error" if go[0] != "ok" else ("yes" if go[1] else "no"),
             "fails to evaluate" if sp[0] != "ok" else ("says true" if sp[1] else "says false")))
@@ -474,7 +486,7 @@ def judge_marker(c, env):
             what += " [inside the domain of C16_marker_partial]"
         if cls == "F-C16-8":
             what += " [" + c["c03_bad"] + "]"
-        if c["impl"] != c["model"]:
+        if not same_marker(c["impl"], c["model"]):
             cls = None      # never attribute a hit to a known class when the code left the pinned model
         out.append(("violation", what, cls, c["impl"][:300], sx(c["spec"])))
     return out
@@ -570,6 +582,12 @@ def check_markers(ctx, rng, ref, env, env_json):
         trees.append(t)
         extras.append(list(e))
     for i in range(n):
+        if rng.random() < 0.12:
+            # the shape of real metadata: extra == "x" and <environment comparison>, normalised requested extras
+            t, e = G.extra_and_env(rng, env)
+            trees.append(t)
+            extras.append(e)
+            continue
         realistic = rng.random() < 0.5
         trees.append(G.gen_tree(rng, rng.choice([0, 1, 1, 2, 2, 3]), realistic))
         extras.append(G.gen_extras_request(rng))
@@ -591,6 +609,13 @@ def check_markers(ctx, rng, ref, env, env_json):
         if c["c03_bad"]:
             ctx.count("c03-interface-mismatch")
         atoms = G.tree_atoms(c["tree"])
+        has_extra = any(G.atom_parts(a)[0] == G.EXTRA for a in atoms)
+        if c["dom"] and has_extra:
+            ctx.count("marker:in-domain:with-extra")
+            if len(c["extras"]) >= 2:
+                ctx.count("marker:in-domain:with-extra:>=2-requested")
+                if len(atoms) >= 2:
+                    ctx.nontriv(("marker-extra2", c["text"], tuple(c["extras"])))
         if (len(atoms) >= 2 or c["extras"]) and sp[0] == "ok":
             ctx.nontriv(("marker", c["text"], tuple(c["extras"])))
         record_marker(ctx, ref, env, env_json, c, budget)
@@ -614,7 +639,7 @@ def multi_line(group_roots):
                 valid.setdefault(k, b)
             for o, sp_, cand, r in c["tabv"][1]:
                 sat.setdefault((o, sp_, cand), r)
-    roots = [[[c["text"], c["extras"]] for c in root] for root in group_roots]
+    roots = [[[c["text"], c.get("ex1", c["extras"]), c.get("shape", 0), c.get("ex2", [])] for c in root] for root in group_roots]
     return sx([roots, [[k, b] for k, b in valid.items()], [[o, a, b, r] for (o, a, b), r in sat.items()]])
 
 
@@ -642,8 +667,9 @@ def judge_multi(group_roots, impl_line, model_line):
                     if b != g[1]:
                         req = sp_[1] if sp_ == g else g[1]
                         out.append(("violation", "a guarded edge is not followed exactly when ITS marker holds: marker %d of the root "
-                                    "(%s) evaluates to %d on its own%s, but its edge is %s when the same resolver also meets the "
-                                    "other markers of the universe" % (i, s8(root[i]["text"]), g[1],
+                                    "(%s, universe shape %d) evaluates to %d on its own%s for the extras requested of its package, but its "
+                                    "edge is %s in the universe (other markers met by the same resolver, other requirers, "
+                                    "rejected candidates: see input.shapes)" % (i, s8(root[i]["text"]), root[i].get("shape", 0), g[1],
                                                                         " (packaging: %d)" % sp_[1] if sp_[0] == "ok" else "",
                                                                         "present" if b else "absent"),
                                     sx(r), "edge %d = %d" % (i, req)))
@@ -676,7 +702,10 @@ def shrink_multi(ctx, group, kind):
 
 def multi_input(group):
     return {"kind": "marker_multi",
-            "roots": [[{"marker": s8(c["text"]), "extras": [s8(e) for e in c["extras"]], "tree": sx(c["tree"])} for c in root] for root in group],
+            "shapes": "0 root->mid[extras]->(marker)g; 1 root->(marker)g; 2 root->a->mid[extras], root->b->mid[extras2], mid->(marker)g; "
+                      "3 root->mid[extras]->(marker)g[zz], g->(extra=='zz')h; 4 root->q,mid[extras]; q 2.0->mid[extras2],zmissing==9 (rejected), q 1.0",
+            "roots": [[{"marker": s8(c["text"]), "shape": c.get("shape", 0), "extras": [s8(e) for e in c.get("ex1", c["extras"])],
+                        "extras2": [s8(e) for e in c.get("ex2", [])], "tree": sx(c["tree"])} for c in root] for root in group],
             "arg": multi_line(group)}
 
 
@@ -690,31 +719,55 @@ def check_multi(ctx, rng, ref, env, env_json):
         for v in (ctx.replay.get("violations") or []):
             inp = v.get("input")
             if isinstance(inp, dict) and inp.get("kind") == "marker_multi":
-                bases.append(("replay", [[(parse_sx(m["tree"]), [e.encode("latin-1") for e in m["extras"]]) for m in root] for root in inp["roots"]]))
+                bases.append(("replay", [[(parse_sx(m["tree"]), [e.encode("latin-1") for e in m["extras"]], m.get("shape", 0),
+                                           [e.encode("latin-1") for e in m.get("extras2", [])]) for m in root] for root in inp["roots"]]))
     for _ in range(nb):
         r = rng.random()
         if r < 0.45:
             t = [0, G.wsp(rng), G.wsp(rng), G.wsp(rng), G.wsp(rng), G.env_atom(rng, env)]
         elif r < 0.6:
             t = [rng.choice([1, 2]), [0, b"", b" ", b" ", b" ", G.env_atom(rng, env)], b" ", G.gen_tree(rng, 0, True)]
+        elif r < 0.75:
+            t = G.extra_and_env(rng, env)[0]
         else:
             t = G.gen_tree(rng, rng.choice([0, 0, 1]), True)
         members = [t] + G.near_duplicates(rng, t)
         rng.shuffle(members)
         members = members[:rng.choice([2, 3, 4, 5])]
-        items = [(m, G.gen_extras_request(rng)) for m in members]
+        items = []
+        for m in members:
+            r2 = rng.random()
+            if r2 < 0.55:
+                items.append((m, G.gen_extras_request(rng), 0, []))
+            elif r2 < 0.68:
+                items.append((m, [], 1, []))                                              # on the root's own requirement
+            elif r2 < 0.80:
+                items.append((m, G.gen_extras_request(rng), 2, G.gen_extras_request(rng)))  # two requirers, different extras
+            elif r2 < 0.90:
+                # extras asked for only by a candidate that is rejected: prefer the names the marker itself mentions
+                lits = [G.atom_parts(a)[2] for a in G.tree_atoms(m) if G.atom_parts(a)[0] == G.EXTRA and b"," not in G.atom_parts(a)[2]]
+                e2 = ([rng.choice(lits)] if lits and rng.random() < 0.8 else []) + G.gen_extras_request(rng)
+                e1 = [e for e in (G.gen_extras_request(rng) or [b"docs"]) if e not in e2]
+                items.append((m, e1, 4, e2 or [b"dev"]))
+            else:
+                items.append((m, G.gen_extras_request(rng), 3, []))                        # the guarded requirement enables an extra
         if rng.random() < 0.3:
-            items.append((items[0][0], G.gen_extras_request(rng)))     # the same marker under other extras
+            items.append((items[0][0], G.gen_extras_request(rng), 0, []))     # the same marker under other extras
         rng.shuffle(items)
         k = rng.randrange(1, len(items)) if len(items) > 1 and rng.random() < 0.7 else len(items)
         bases.append(("gen", [items[:k], items[k:]] if k < len(items) else [items]))
-    flat_t, flat_e = [], []
+    flat_t, flat_e, flat_s = [], [], []
     for _, roots in bases:
         for root in roots:
-            for t, e in root:
+            for t, e, shape, e2 in root:
                 flat_t.append(t)
-                flat_e.append(e)
+                # the extras with which the package carrying the guarded requirement is asked for
+                flat_e.append([] if shape == 1 else (e + [x for x in e2 if x not in e] if shape == 2 else e))
+                flat_s.append((shape, e, e2))
     cases = eval_markers(ctx, ref, env, env_json, flat_t, flat_e, [b""] * len(flat_t))
+    for c, (shape, e, e2) in zip(cases, flat_s):
+        c["shape"], c["ex1"], c["ex2"] = shape, e, e2
+        ctx.count("multi:shape-%d" % shape)
     groups, pos = [], 0
     for _, roots in bases:
         g = []
@@ -789,7 +842,8 @@ def check_malformed(ctx, rng, req_texts, marker_texts):
     exs = [G.gen_extras_request(rng) for _ in range(n)]
     tabs = ctx.impl("pep440_tables", [sx(b) for b in badm])
     full = ["(" + sx(t) + " " + sx(e) + " " + tb[1:] for t, e, tb in zip(badm, exs, tabs)]
-    impl, _ = ctx.correspond("marker", full, label="marker:malformed")
+    grid = sx([[], [b"test"], [b"x", b"dev"]])
+    impl, _ = ctx.correspond("marker", [f[:-1] + " " + grid + ")" for f in full], label="marker:malformed", compare=same_marker)
     for b, e, line in zip(badm, exs, impl):
         k = parse_sx(line)[0].decode()
         ctx.count("malformed-marker:" + k)
